@@ -243,3 +243,39 @@ Proof.
 Qed.
 
 End Deflate.
+
+(* ---------- the AAD of the encryption is the encoding of the protected header that is EMITTED ---------- *)
+Lemma aad_is_emitted_json O g prior o d x data :
+  e_ser o <> Compact ->
+  perform_encrypt_obj O prior g o d = Ok x -> represent_json O o x = Ok data ->
+  exists p, py_getitem_str data (s_ "protected") = Ok (PStr p) /\
+            x_aadseg x = spec_aad p (e_aad o).
+Proof.
+  intros N H RJ. unfold perform_encrypt_obj in H.
+  pose proof (perform_encrypt_inv O g o d x H) as [_ [_ [_ [_ [_ [_ [JB [AS _]]]]]]]].
+  unfold represent_json in RJ. rewrite JB in RJ. cbn [bind] in RJ.
+  exists (x_b64prot x). split.
+  - destruct (e_ser o); [contradiction | |].
+    + destruct (x_recips x); [discriminate |]. inversion RJ; subst. simpl.
+      rewrite str_eqb_refl. reflexivity.
+    + inversion RJ; subst. simpl. rewrite str_eqb_refl. reflexivity.
+  - rewrite AS. apply aad_json. exact N.
+Qed.
+
+Lemma aad_is_emitted_compact O g prior o d x tok :
+  e_ser o = Compact ->
+  perform_encrypt_obj O prior g o d = Ok x -> represent_compact x = Ok tok ->
+  exists rest, tok = x_aadseg x ++ 46 :: rest /\ x_aadseg x = x_b64prot x.
+Proof.
+  intros S H RC. unfold perform_encrypt_obj in H.
+  pose proof (perform_encrypt_inv O g o d x H) as [_ [_ [_ [_ [_ [_ [_ [AS _]]]]]]]].
+  unfold represent_compact in RC. destruct (x_recips x) as [|r rs]; [discriminate |].
+  inv_bind RC. inversion RC; subst. simpl. eexists. split; [reflexivity |].
+  rewrite AS, S. reflexivity.
+Qed.
+
+(* whatever the object carried in base64_segments before: it is not an input *)
+Lemma prior_segments_irrelevant O g prior1 prior2 o d :
+  perform_encrypt_obj O prior1 g o d = perform_encrypt_obj O prior2 g o d /\
+  encrypt_json_obj O prior1 g o d = encrypt_json_obj O prior2 g o d.
+Proof. split; reflexivity. Qed.
